@@ -199,34 +199,13 @@ def _check_session(cases, prob=False):
     """the same figures drawn in ONE session: every verif.driver.run of the chunk gets the SAME verif.data.Data object for the same
     files and selection (as a script does that loads its data once and draws several diagrams) -- a diagram must not change what
     the next one is drawn from"""
-    import hashlib
-    import numpy as np
-    import verif.data
-    real = verif.data.Data
-    cache = {}
-
-    def norm(v):
-        if isinstance(v, (int, float, str, bool, type(None))):
-            return v
-        if isinstance(v, (list, tuple, np.ndarray)):
-            return tuple(np.asarray(v).reshape(-1).tolist())
-        return type(v).__name__
-
-    def factory(inputs, **kw):
-        key = (tuple(hashlib.md5(open(i.fullname, "rb").read()).hexdigest() for i in inputs),
-               tuple(sorted((k, norm(v)) for k, v in kw.items() if k != "clim")), None if kw.get("clim") is None else kw["clim"].fullname)
-        if key not in cache:
-            cache[key] = real(inputs, **kw)
-        return cache[key]
-    verif.data.Data = factory
-    try:
+    from harness import session
+    with session.shared_data():
         if prob:
             n, pdivs = _check_prob_chunk(cases)
             divs = [(site, detail, rep) for site, known, detail, rep in pdivs]
         else:
             n, divs = _check_chunk(cases)
-    finally:
-        verif.data.Data = real
     return n, [(site + ":one-session", detail + " [drawn in one session on a shared Data object, after: %s]" % ", ".join(c["diagram"] for c in cases[:6]), rep)
                for site, detail, rep in divs]
 
